@@ -15,7 +15,7 @@ func init() {
 // runGenTest checks the generators themselves: schemas are accepted and every non-filtered
 // logical record yields exactly one result.
 func runGenTest(c *Ctx) []Violation {
-	w := world.Generate(c.T, world.GenOpts{Encodings: true})
+	w := genWorld(c, world.GenOpts{Encodings: true})
 	env := baseEnv(c)
 	env.Apply()
 	rd := simio.NewReader(w.Input, simio.Whole(len(w.Input)))
@@ -33,6 +33,11 @@ func runGenTest(c *Ctx) []Violation {
 	}
 	if tr.TransformErr != "" {
 		return fail("NewTransform failed: " + tr.TransformErr)
+	}
+	if w.Tag("json.stream-of-top-level-values") != "" {
+		// by design the library reads the first top-level value and refuses what follows
+		c.Count("json.stream-of-top-level-values", 1)
+		return nil
 	}
 	want := 0
 	for _, r := range w.LRecs {
